@@ -596,16 +596,38 @@ func rulePC2(p *Prog) *RuleResult {
 			res.undecided(name, "-", "anchor not found")
 			continue
 		}
-		// stores that grow the plane array
-		var grow []*ssa.BasicBlock
-		for _, b := range f.Blocks {
-			for _, ins := range b.Instrs {
-				if st, ok := ins.(*ssa.Store); ok {
-					if fa, ok := st.Addr.(*ssa.FieldAddr); ok && strings.HasSuffix(fieldName(fa.X.Type(), fa.Field), ".bA") {
-						grow = append(grow, b)
+		// stores that grow the plane array; the widening code may live in a helper method called on the
+		// same receiver (extract-method refactoring): then the helper is analysed in place of the entry point
+		growBlocks := func(g *ssa.Function) []*ssa.BasicBlock {
+			var out []*ssa.BasicBlock
+			for _, b := range g.Blocks {
+				for _, ins := range b.Instrs {
+					if st, ok := ins.(*ssa.Store); ok {
+						if fa, ok := st.Addr.(*ssa.FieldAddr); ok && strings.HasSuffix(fieldName(fa.X.Type(), fa.Field), ".bA") {
+							out = append(out, b)
+						}
 					}
 				}
 			}
+			return out
+		}
+		grow := growBlocks(f)
+		for depth := 0; len(grow) == 0 && depth < 2; depth++ {
+			var next *ssa.Function
+			for _, b := range f.Blocks {
+				for _, ins := range b.Instrs {
+					if c, ok := ins.(*ssa.Call); ok {
+						if g := c.Call.StaticCallee(); g != nil && g.Signature.Recv() != nil && len(c.Call.Args) > 0 && len(f.Params) > 0 && c.Call.Args[0] == ssa.Value(f.Params[0]) && len(growBlocks(g)) > 0 {
+							next = g
+						}
+					}
+				}
+			}
+			if next == nil {
+				break
+			}
+			f = next
+			grow = growBlocks(f)
 		}
 		if len(grow) == 0 {
 			res.undecided(name+"|growth", p.pos(f.Pos()), "no store to bA: the widening code moved, re-anchor the rule")
